@@ -867,10 +867,8 @@ func fmtCommentEndsLine(w *World, r *Report, prop string) {
 	var seeds []ssa.Value
 	for _, fn := range cf.fns {
 		forEachInstr(fn, func(_ *ssa.BasicBlock, ins ssa.Instruction) {
-			if c, ok := ins.(*ssa.Call); ok && c.Call.StaticCallee() != nil {
-				if n := c.Call.StaticCallee().Name(); n == "GetHiddenTokensToLeft" || n == "GetHiddenTokensToRight" {
-					seeds = append(seeds, c)
-				}
+			if c, ok := ins.(*ssa.Call); ok && isHiddenQueryCall(c) {
+				seeds = append(seeds, c)
 			}
 		})
 	}
